@@ -421,9 +421,41 @@ def check_reference_sim(chk, rule='C15.R'):
     return True
 
 
+def check_regex_split_sim(chk, rule='C15.R'):
+    """regexSplit(regexNew(pattern), text) evaluated (the host regex engine on concrete text is the reference: re.split) -> True when every call agrees"""
+    import re as _re
+    from ..libsim import JsonInterp
+    from ..absint import AList, ADict, ARegex, reify
+    libfuncs = {lf.name: lf for lf in library_functions(chk.repo, rule)}
+    lib = chk.repo.module('library')
+    rn, rs = libfuncs.get('regexNew'), libfuncs.get('regexSplit')
+    if rn is None or rs is None:
+        raise Unrecognised(rule, 'regexNew / regexSplit not registered', lib.rel)
+    it = JsonInterp(chk.repo, lib, rule)
+    it.oracles.pop('value_compare', None)
+    n = 0
+    for pattern in (',', '\\r?\\n', ', *', 'x+', '[;|]'):
+        got = it.run(rn.func, [AList([pattern]), ADict({})])
+        if got[0] != 'value' or not isinstance(got[1], ARegex) or got[1].pattern is None:
+            raise Unrecognised(rule, f'regexNew({pattern!r}) evaluates to {got!r}'[:160], lib.rel)
+        for text in ('a,b', 'a,,b', ',a,', '', ',', 'a\n\nb\r\n', '\n', 'axxb;;c|', 'no separator', 'a, b,  c,,'):
+            n += 1
+            want = _re.split(got[1].pattern, text, flags=got[1].flags) if not got[1].flags else _re.compile(got[1].pattern, got[1].flags).split(text)
+            res = it.run(rs.func, [AList([got[1], text]), ADict({})])
+            out = reify(res[1]) if res[0] == 'value' else None
+            if res[0] != 'value' or out != want:
+                chk.bad(rule, lib, rs.pyname, f'regexSplit({pattern!r}, {text!r})', f'evaluation: regexSplit(regexNew({pattern!r}), {text!r}) ' +
+                        (f'gives {out!r}' if res[0] == 'value' else f'raises {res[1]}') + f'; the split parts are {want!r} (empty parts between adjacent separators and at the ends included)', node=rs.func)
+                return False
+    chk.ok(rule, f'regexSplit: {n} calls on texts with adjacent, leading and trailing separators, empty text, LF / CRLF: the parts of the host split, empty parts included', count=n)
+    return True
+
+
 def run(chk):
     chk.rule('C15.R', 'array / object / string functions = the reference list / dict / str model on pools of argument lists, incl. aliasing and failure values (evaluation, E6c)', floor=3000)
     ref_ok = chk.guard('C15.R', check_reference_sim, chk)
+    split_ok = chk.guard('C15.R', check_regex_split_sim, chk)
+    ref_ok = None if (ref_ok is None or split_ok is None) else (ref_ok and split_ok)
     chk.rule('C15.V', 'failure value agreement (declared, explicit raises, documented sentinel)', floor=20)
     chk.rule('C15.M', 'validate (and every failure exit) before mutating an argument', floor=10)
     chk.rule('C15.B', 'index-taking array / string functions agree with the reference sequence model on every index (abstract execution, E6l)', floor=1000)
